@@ -82,6 +82,14 @@ def chain_execute(case):
         return Rec
 
     classes = {i: make(i) for i in range(1, n + 1)}
+    # pools and decorators may be falsy (an empty composite has __len__() == 0): truthiness
+    # must never decide whether an element receives its target
+    for i, cls in classes.items():
+        r = rnd.random()
+        if r < 0.25:
+            cls.__bool__ = lambda self: False
+        elif r < 0.4:
+            cls.__len__ = lambda self: 0
     expect = {}
 
     def template(i):
@@ -105,17 +113,35 @@ def chain_execute(case):
             t = t(*a, **kw)
         return t
 
-    def ev(e):
+    cache = {}
+
+    def ev(e, path=()):
         if e[0] == "E":
-            return template(e[1])
-        left = ev(e[1])
-        right = ev(e[2])
-        return left >> right
+            v = template(e[1])
+        else:
+            left = ev(e[1], path + (1,))
+            right = ev(e[2], path + (2,))
+            v = left >> right
+        cache[path] = v
+        return v
+
+    def ev_again(e, path=()):
+        """the same expression once more, REUSING every unbound operand (template or group)
+        of the first evaluation: building a pipeline must not change its operands"""
+        v0 = cache.get(path)
+        if e[0] == "E" or (isinstance(v0, (Partial, PartialBind)) and rnd.random() < 0.5):
+            return v0
+        # (an unbound group is either reused as it is or combined once more from its - reused -
+        #  operands: both must give what the first evaluation gave)
+        return ev_again(e[1], path + (1,)) >> ev_again(e[2], path + (2,))
 
     exc = ""
     try:
         # the pool instance exists before the expression is evaluated
         res = ev(case["expr"])
+        if case.get("reuse") and tail != "instance":
+            del LOG[:]
+            res = ev_again(case["expr"])
     except Exception as ex:  # noqa
         res = None
         exc = type(ex).__name__
@@ -139,7 +165,7 @@ def chain_execute(case):
         return {"t": "foreign"}
 
     result = enc(res) if not exc else {"t": "raised"}
-    return {"n": n, "tail": tail, "expr": case["expr"], "seed": case["seed"], "result": result, "log": LOG, "argsok": argsok, "exc": exc}
+    return {"n": n, "tail": tail, "expr": case["expr"], "seed": case["seed"], "reuse": bool(case.get("reuse")), "result": result, "log": LOG, "argsok": argsok, "exc": exc}
 
 
 def random_tree(rnd, lo, hi):
@@ -238,7 +264,7 @@ def judge_chain(ctx, traces, verdicts):
             ctx.traces_accepted += 1
         if v.nc is not None:
             ctx.traces_nc += 1
-        case = {"kind": "chain", "n": tr["n"], "tail": tr["tail"], "expr": tr["expr"], "seed": tr["seed"]}
+        case = {"kind": "chain", "n": tr["n"], "tail": tr["tail"], "expr": tr["expr"], "seed": tr["seed"], "reuse": tr.get("reuse", False)}
         for name in sorted({n for _, n in v.pv}):
             ctx.add_violation(name, {"invariant": name, "part": "chain"}, "expression %s (tail %s) -> %s log %s %s violates %s" % (json.dumps(tr["expr"]), tr["tail"], json.dumps(tr["result"])[:300], tr["log"], tr["exc"], name), case, detail={"trace": tr})
         if v.nc is not None and not v.pv:
@@ -275,10 +301,10 @@ def run(ctx):
     reps = 3  # each expression with several argument splits
     for i, c in enumerate(cases):
         for r in range(reps):
-            chain_cases.append({"n": c["n"], "tail": c["tail"], "expr": c["expr"], "seed": ctx.seed * 100003 + i * 7 + r})
+            chain_cases.append({"n": c["n"], "tail": c["tail"], "expr": c["expr"], "seed": ctx.seed * 100003 + i * 7 + r, "reuse": r == 1})
     for i in range(4000 if thorough else 600):
         n = rnd.randrange(7, 11)
-        chain_cases.append({"n": n, "tail": rnd.choice(TAILS), "expr": random_tree(rnd, 1, n), "seed": rnd.randrange(1 << 30)})
+        chain_cases.append({"n": n, "tail": rnd.choice(TAILS), "expr": random_tree(rnd, 1, n), "seed": rnd.randrange(1 << 30), "reuse": rnd.random() < 0.5})
     ctraces = [chain_execute(c) for c in chain_cases]
     v1, st1 = traceval.validate("ChainTrace", [{k: t[k] for k in ("n", "tail", "expr", "result", "log", "argsok")} for t in ctraces], "", timeout=3000)
     judge_chain(ctx, ctraces, v1)
